@@ -49,9 +49,10 @@ func verifIslandFont16() *Font {
 		},
 	}
 	// raw TrueType tables as a font reader delivers them: slices with spare capacity
-	raw := make([]byte, 5, 16)
-	copy(raw, []byte{1, 2, 3, 4, 5})
-	f.Outlines.(*glyf.Outlines).Tables = map[string][]byte{"cvt ": raw, "prep": make([]byte, 2, 8)}
+	// (e.g. sub-slices of one file buffer: what follows the table in the backing array is not zero)
+	buf := []byte{1, 2, 3, 4, 5, 0xAA, 0xAA, 0xAA, 0xAA, 0xAA, 0xAA, 0xAA, 0xAA, 0xAA, 0xAA, 0xAA}
+	raw := buf[:5]
+	f.Outlines.(*glyf.Outlines).Tables = map[string][]byte{"cvt ": raw, "prep": buf[8:10]}
 	return f
 }
 
